@@ -119,6 +119,32 @@ pub fn gen(app: App, flavor: Flavor, over_tcp: bool, rng: &mut Rng) -> Vec<u8> {
             if over_tcp && rng.chance(1, 12) {
                 return c.encode_tcp_fragments(rng);
             }
+            if over_tcp && c.args.len() < 64 && rng.chance(1, 16) {
+                // a call with a run of tiny records around it in the same segment: empty records,
+                // records too short to be a message - few, or hundreds
+                let n = *rng.pick(&[1usize, 2, 3, 17, 255, 256, 257, 300]);
+                let tiny = |rng: &mut Rng, v: &mut Vec<u8>| match rng.below(4) {
+                    0 | 1 | 2 => v.extend_from_slice(&[0x80, 0, 0, 0]),
+                    _ => {
+                        v.extend_from_slice(&[0x80, 0, 0, 4]);
+                        v.extend_from_slice(&rng.bytes(4));
+                    }
+                };
+                let mut v = Vec::new();
+                let before = rng.chance(1, 3);
+                if before {
+                    for _ in 0..n.min(300) {
+                        v.extend_from_slice(&[0x80, 0, 0, 0]);
+                    }
+                }
+                v.extend_from_slice(&c.encode_tcp());
+                if !before {
+                    for _ in 0..n {
+                        tiny(rng, &mut v);
+                    }
+                }
+                return v;
+            }
             if over_tcp {
                 c.encode_tcp()
             } else {
